@@ -17,6 +17,7 @@
  *   f<path>                   asm_assemble_file         n<c>:<path>  asm_assemble_file_counting_chunks
  *   B<path>                   asm_create_bin_file
  *   x                         call the code in a forked child, report rax
+ *   u<id>                     setgroups/setgid/setuid to id (drop privileges; use only in dangerous = per-history child mode)
  *   S                         dump struct assemblyline field-wise (state_dump.c, compiled against repo header)
  *   R<fillhex>                refill the caller buffer
  *   Z<spec>                   (wrap variant) fault plan, see wrap_libc.c
@@ -24,6 +25,7 @@
 #define _GNU_SOURCE
 #include <errno.h>
 #include <fcntl.h>
+#include <grp.h>
 #include <signal.h>
 #include <stdint.h>
 #include <stdio.h>
@@ -425,6 +427,12 @@ static void run_history(char *s, char *e) {
       break;
     }
     case 'x': do_call(); break;
+    case 'u': { /* drop privileges (only meaningful in a per-history child): setgid/setuid to the given id */
+      int id = atoi(arg);
+      int r1 = setgroups(0, NULL), r2 = setgid((gid_t)id), r3 = setuid((uid_t)id);
+      lprintf("u:%d", (r1 || r2 || r3) ? -1 : (int)geteuid());
+      break;
+    }
     case 'S': {
       char tmp[256];
       if (!I[cur].alive) { lputs("S:E"); break; }
